@@ -1315,6 +1315,37 @@ def g_batch(mode):
                         pass
                 if o3.log == [1, "opaque", 2] and "C11-unserialisable-member-result" not in KNOWN:
                     KNOWN.append("C11-unserialisable-member-result")
+                # listed known finding: a batch member that raises StopIteration: the results come out of a generator, and a StopIteration raised inside a generator
+                # is turned into RuntimeError by the interpreter (PEP 479) - one by one the caller gets the StopIteration itself
+                RUNS[0] += 1
+
+                @api.expose
+                class Stopper(Acc):
+                    def stop(self):
+                        raise StopIteration("done")
+                s1, s2 = Stopper(), Stopper()
+                us1, us2 = r.daemon.register(s1), r.daemon.register(s2)
+                try:
+                    seq_exc = bat_exc = None
+                    with client.Proxy(us1) as p:
+                        try:
+                            p.stop()
+                        except BaseException as x:      # noqa
+                            seq_exc = type(x).__name__
+                    with client.Proxy(us2) as p:
+                        b = client.BatchProxy(p)
+                        b.stop()
+                        try:
+                            list(b())
+                        except BaseException as x:      # noqa
+                            bat_exc = type(x).__name__
+                    if seq_exc == "StopIteration" and bat_exc == "RuntimeError" and "C11-batch-member-stopiteration-becomes-runtimeerror" not in KNOWN:
+                        KNOWN.append("C11-batch-member-stopiteration-becomes-runtimeerror")
+                    elif seq_exc != bat_exc and not (seq_exc == "StopIteration" and bat_exc == "RuntimeError"):
+                        fail(group="C11", violated="a member raising StopIteration: one by one the caller gets %s, from the batch %s" % (seq_exc, bat_exc))
+                finally:
+                    r.daemon.unregister(s1)
+                    r.daemon.unregister(s2)
                 # the results of a batch are serialised together after the last call: a result that is a live mutable object of the server shows the state
                 # AFTER the later calls of the batch, whereas one by one it is serialised at once
                 RUNS[0] += 1
